@@ -322,9 +322,12 @@ func genFind(w *world, pool [][]byte) {
 	if r.Bool() {
 		from = genStart(r, pool, prefix)
 	}
-	max := r.Range(1, 6) // maxNum >= 1 (with 0 the stop test `count >= maxNum` fires after the first node)
+	max := r.Range(1, 6)
 	if r.Bool() {
 		max = 1000
+	} else if r.Chance(1, 8) {
+		max = 0 // the stop test `count >= maxNum` fires after the first visited node (model: findX)
+		w.o.Count("find:max0")
 	}
 	w.find(prefix, from, max)
 }
@@ -836,5 +839,55 @@ var corpus = []func(w *world){
 		w.get([]byte{})
 		w.batch([]change{{key: hb("")}})
 		w.root()
+	},
+	// lazy loading on the write paths (Props/C10Lazy.lean): after Collapse(0) every node is behind a
+	// HashNode. (a) Delete leaves a branch with one child that is a HashNode: the sibling is loaded and
+	// merged (trie.go:324-329); (b) Delete leaves only the branch's own value: the HashNode of that
+	// leaf is returned unloaded and kept as the extension's next (trie.go:321-322, 361-362);
+	// (c) a batch strips a branch to one HashNode child: mergeExtension loads it (batch.go:90-95).
+	func(w *world) {
+		putAll(w, "1201", "1203", "12ff05")
+		w.collapse(0)
+		w.del(hb("1201")) // branch {0: branch{1,3}, f: ext} -> inner branch stripped, sibling 1203 loaded
+		w.root()
+		w.collapse(0)
+		w.del(hb("1203")) // now the outer branch is left with the single HashNode child 12ff05
+		w.root()
+		w.get(hb("12ff05"))
+		putAll(w, "12", "1203")
+		w.collapse(0)
+		w.del(hb("12ff05"))
+		w.del(hb("1203")) // branch keeps only its value: HashNode of the leaf returned, ext 12 -> HashNode
+		w.root()
+		w.get(hb("12"))
+		putAll(w, "1201", "1203", "12ff05")
+		w.collapse(1)
+		w.batch([]change{{key: hb("1201")}, {key: hb("1203")}, {key: hb("12")}})
+		w.root()
+		w.collapse(0)
+		w.batch([]change{{key: hb("12ff05"), val: []byte{9}}, {key: hb("12ff"), val: []byte{}}})
+		w.root()
+		w.seek(nil, nil, false)
+	},
+	// a missing node: Put fails and changes nothing; Delete fails at the sibling it cannot load but has
+	// removed the key already (the Lean witness in Props/C10Lazy.lean); PutBatch fails half-way
+	func(w *world) {
+		w.put(hb("12"), []byte{7})
+		w.put(hb("13"), []byte{8})
+		w.put(hb("2005"), []byte{9})
+		ps, _ := w.tr.GetProof(hb("13"))
+		w.reopen()
+		w.get(hb("12")) // the path to 12 is in memory now, its sibling 13 is a HashNode
+		w.drop(dsha(ps[len(ps)-1]))
+		w.put(hb("13"), []byte{1}) // has to load the leaf it replaces: error, nothing changed
+		w.root()
+		w.get(hb("12"))
+		w.del(hb("12")) // error (sibling cannot be loaded) …
+		w.get(hb("12")) // … but the key is gone
+		w.get(hb("13"))
+		w.get(hb("2005"))
+		w.batch([]change{{key: hb("2005")}, {key: hb("13"), val: []byte{3}}, {key: hb("0001"), val: []byte{4}}})
+		w.get(hb("0001"))
+		w.get(hb("2005"))
 	},
 }
